@@ -148,7 +148,7 @@ Proof.
   split; [exact Hv|]. split; [exact HP|].
   apply Forall_forall. intros e He. apply in_map_iff in He as (e0 & <- & He0).
   rewrite Forall_forall in Ht. specialize (Ht e0 He0).
-  destruct e0 as [r off w al| | |]; try exact I.
+  destruct e0 as [r off w al| | |]; try exact I; try exact Ht.
   destruct r; [|exact Ht]. cbn in Ht |- *.
   destruct Ht as [Hb Hal]. split; [fold len; lia|]. intros E Hw. specialize (Hal E Hw).
   replace (a + (off + it_start it)) with (a + it_start it + off) by lia. exact Hal.
